@@ -10,7 +10,7 @@ CONSTANT Tier        \* "quick" | "thorough"
 
 AllPrims == {"u8", "i8", "u16", "i16", "u32", "i32", "u64", "i64", "u128", "i128",
              "usize", "isize", "f32", "f64", "bool", "char", "unit"}
-LibNames == {"ArcStr", "PathBuf", "IpAddr", "SocketAddr", "Duration", "SystemTime", "IoError",
+LibNames == {"ArcStr", "PathBuf", "ArrayString", "IpAddr", "SocketAddr", "Duration", "SystemTime", "IoError",
              "Canary1", "DateTimeUtc", "BitVec", "BitSet", "BitVec08", "BitSet08",
              "AtomicBool", "AtomicU8", "AtomicI8", "AtomicU16", "AtomicI16", "AtomicU32", "AtomicI32",
              "AtomicU64", "AtomicI64", "AtomicUsize", "AtomicIsize", "PhantomData"}
@@ -23,7 +23,7 @@ Mix   == Key6 \cup {P("i8"), P("f32"), P("char"), P("u128"), P("usize"), P("unit
 
 SeqKinds == {"Vec", "VecDeque", "BoxSlice", "ArcSlice", "SmallVec", "ArrayVec"}
 KeyedKinds == {"BTreeSet", "HashSet", "IndexSet", "FxHashSet", "BinaryHeap"}
-BoxKinds == {"Box", "Rc", "Arc", "Cell", "RefCell", "Mutex", "RwLock", "Cow"}
+BoxKinds == {"Box", "Rc", "Arc", "Cell", "RefCell", "Mutex", "StdMutex", "RwLock", "Cow"}
 MapKinds == {"BTreeMap", "HashMap", "IndexMap", "FxHashMap"}
 
 Wrap1 ==
@@ -37,6 +37,7 @@ Wrap1 ==
     \cup {Tup(<<a, b>>) : a \in P4 \cup {Str}, b \in P4 \cup {Str}}
     \cup {Tup(<<a, b, c>>) : a \in P3, b \in P3, c \in P3}
     \cup {Map(k, a, b) : k \in MapKinds, a \in {P("u8"), P("u32"), Str}, b \in {P("u8"), P("u32"), Str}}
+    \cup {Rng(t) : t \in {P("u8"), P("u32"), P("i64"), Str}}
     \cup {T("range", "", 0, <<t>>, <<>>) : t \in {}}
 
 Reprs == {"Rust", "C"}
